@@ -137,6 +137,11 @@ def run_one(choices, params):
             r1, w1 = fos.pipe()
             r2, w2 = fos.pipe()
             fr1, fw1, fr2, fw2 = fos.fdopen(r1, "rb"), fos.fdopen(w1, "wb"), fos.fdopen(r2, "rb"), fos.fdopen(w2, "wb")
+            if c.draw(3) == 0:
+                # something was written through the (buffered) file object before the stream took the descriptor over -
+                # a banner, a READY line: it has to reach the peer before the first frame
+                info["banner"] = True
+                fw2.write(b"READY\n")
             sa = PipeStream(fr1, fw2)      # A reads pipe1, writes pipe2
             sb = PipeStream(fr2, fw1)
             fr1._so._d.tag = fw2._so._d.tag = "A"
@@ -202,6 +207,18 @@ def run_one(choices, params):
         def side(ch, who):
             dead = False
             try:
+                if who == "B" and info.get("banner"):
+                    got = b""
+                    fos_ = patch.MODS["os"]
+                    while len(got) < 6:
+                        piece = fos_.read(ch.stream.incoming.fileno(), 6 - len(got))
+                        if not piece:
+                            break
+                        got += piece
+                    sim.count("c05:banner-before-first-frame")
+                    if got != b"READY\n":
+                        raise core.Violation("stream-reordered", "bytes written through the file object before the stream was created did not "
+                                             "arrive first: the pipe delivered %r" % (got,))
                 for op, d, i in script[who]:
                     if c.flip(50) or (info.get("stall") and who == "B" and c.flip(500)):
                         sim.sleep(0.125 * (1 + c.draw(8)))
